@@ -1,15 +1,15 @@
 #!/bin/bash
 # store_seed.sh <worktree-id> <seed-name> <property> "<needs>" "<summary>"  : keep a confirmed seeded change under /verif/seeded/<seed-name>/ and remove the scratch worktree
-id=$1; name=$2; prop=$3; needs=$4; summary=$5; wt=/tmp/seed/$id; dst=/verif/seeded/$name
-grep -q "^CONFIRMED" /tmp/seed/$id.confirm.log || { echo "not confirmed"; exit 1; }
+R=${SEEDROOT:-/tmp/seed}; id=$1; name=$2; prop=$3; needs=$4; summary=$5; wt=$R/$id; dst=/verif/seeded/$name
+grep -q "^CONFIRMED" $R/$id.confirm.log || { echo "not confirmed"; exit 1; }
 mkdir -p $dst
 ( cd $wt && git diff -- src ) > $dst/patch.diff
 for f in $wt/demo/*; do case "$f" in *.c|*.cc|*.cpp|*.sh|*.h|*.txt) cp "$f" $dst/;; esac; done
 rm -f $dst/patch.diff.orig
 python3 - "$id" "$name" "$prop" "$needs" "$summary" <<'PY'
 import json,sys,re
-id,name,prop,needs,summary=sys.argv[1:6]
-log=open(f'/tmp/seed/{id}.confirm.log').read()
+id,name,prop,needs,summary=sys.argv[1:6]; import os; R=os.environ.get('SEEDROOT','/tmp/seed')
+log=open(f'{R}/{id}.confirm.log').read()
 conf=[l for l in log.split('\n') if l.startswith('CONFIRMED')][-1]
 json.dump({"property":prop,"summary":summary,"needs_to_manifest":needs,
  "confirmed_by":"tools/confirm_seed.sh in a scratch worktree of /repo (since removed): rebuilt with the change; ./bin/arestest --gtest_filter=-*.Live* and the aresfuzz/aresfuzzname corpora pass with it; demo (build.sh + demo source here) exits non-zero with the change and 0 without it",
